@@ -82,14 +82,22 @@ def Hstrp.asBytes (h : Hstrp) : R Bytes := do
     | some p => p.asBytes
   pure (hstrpHeader ++ [h.version] ++ [h.pktType.asByte] ++ be2 h.sn ++ optionsBytes h.options ++ pl)
 
+/-- `HSTRPOptions.from_bytes(data[6:]) if pkt_type.has_options else HSTRPOptions()` -/
+def Hstrp.parseOpts (t : PktType) (d : Bytes) : R Opts :=
+  if t.hasOptions then parseOptions (d.drop 6) else pure []
+
+/-- `HDAP.from_bytes(data[6 + len(options):]) if pkt_type.has_data or len(data) > 6 + len(options) else None`
+("payload might be there even if the options is_option=False") -/
+def Hstrp.parsePayload (t : PktType) (d : Bytes) (n : Nat) : R (Option Pdu) :=
+  if t.hasData ∨ d.length > 6 + n then Hdap.fromBytes (d.drop (6 + n)) else pure none
+
 /-- `HSTRP.from_bytes` -/
 def Hstrp.fromBytes (d : Bytes) : R (Option Hstrp) := do
   if d.length < 6 then return none
   if sl d 0 2 ≠ hstrpHeader then throw .assertion
   let t := PktType.ofByte (← idx d 3)
-  let opts ← if t.hasOptions then parseOptions (d.drop 6) else pure []
-  let payload ← if t.hasData ∨ d.length > 6 + optionsLen opts then Hdap.fromBytes (d.drop (6 + optionsLen opts))
-    else pure none
+  let opts ← Hstrp.parseOpts t d
+  let payload ← Hstrp.parsePayload t d (optionsLen opts)
   pure (some ⟨← idx d 2, t, ofBe (sl d 4 6), opts, payload⟩)
 
 end Dmr.Hytera
